@@ -37,8 +37,19 @@ class Harness:
 
 def load():
     out = []
-    for fn, mod in inject.harness_files().items():
-        with open(mod["path"], encoding="utf-8") as f:
+    files = []
+    mods = inject.harness_files()
+    for fn, mod in mods.items():
+        files.append((mod["path"], mod))
+    for fn in sorted(os.listdir(inject.HARNESS_DIR)):
+        if not fn.endswith(".rs"):
+            continue
+        path = os.path.join(inject.HARNESS_DIR, fn)
+        m = re.search(r"^//\s*@gv-part-of\s+(\S+)", open(path, encoding="utf-8").read(), re.M)
+        if m and m.group(1) in mods:
+            files.append((path, mods[m.group(1)]))
+    for path, mod in files:
+        with open(path, encoding="utf-8") as f:
             lines = f.read().split("\n")
         attrs = {}
         unwind = None
